@@ -11,7 +11,7 @@ from evh import sched as S
 from props.c20 import StubGw, idnum, atexit_unregister
 
 
-def one_run(wants, chooser, line_budget):
+def one_run(wants, chooser, line_budget, terminators=0):
     import execnet.multi as multi
     from execnet import gateway_bootstrap, gateway_io
 
@@ -22,6 +22,9 @@ def one_run(wants, chooser, line_budget):
     gateway_bootstrap.bootstrap = lambda io, spec: StubGw(spec)
     group = multi.Group()
     atexit_unregister(group)
+    orig_st = multi.safe_terminate
+    if terminators:
+        multi.safe_terminate = lambda *a, **k: None      # stub gateways have no process to wait for / kill
     group._autoidlock = S.SLock(sc, "autoidlock")  # the Group's own threading.Lock, made schedulable
     outcomes = [None] * len(wants)
     table = {}
@@ -34,14 +37,20 @@ def one_run(wants, chooser, line_budget):
         except (ValueError, AssertionError) as e:
             outcomes[i] = [5, type(e).__name__]
 
+    def terminator():
+        group.terminate(timeout=None)
+
     try:
         for i, w in enumerate(wants):
             sc.spawn(worker, (i, w), name=f"mk{i}")
+        for i in range(terminators):
+            sc.spawn(terminator, name=f"term{i}")
         S.enable_line_preemption(sc, REPO_SRC)
         res = sc.run(timeout=30)
     finally:
         S.disable_line_preemption()
         gateway_io.create_io, gateway_bootstrap.bootstrap = orig
+        multi.safe_terminate = orig_st
     ids = [g.id for g in group._gateways]
     final = [idnum(i, table) for i in ids]
     return res, final, outcomes, ids, sc.trace, table
@@ -111,5 +120,31 @@ def run(ck, tier, replay):
                 norm = {(g, tuple(x if (j % 2 == 0 or p[j - 1] == 4) else -1 for j, x in enumerate(p))) for g, p in finals_by_prog[pi]}
                 if obs not in norm:
                     ck.broke("correspondence", "group-sched-outcome-not-in-model", {"case": ex, "observed": obs})
+    # the same with Group.terminate() running next to the makegateway calls (no model inclusion: the id model has no terminate):
+    # automatic ids stay distinct and no request for an automatic id fails, whenever the terminate happens
+    if not replay or replay["example"].get("terminators"):
+        tprogs = [([None, None], 1), ([None, None, None], 1), ([None, "a", None], 2)] if not replay else [(replay["example"]["wants"], replay["example"]["terminators"])]
+        for wants, nt in tprogs:
+            for k in range(nsched):
+                if replay:
+                    chooser = S.ReplayChooser(replay["example"]["schedule"])
+                else:
+                    r = random.Random(rng.random())
+                    chooser = S.RandomChooser(r, line_p=0.25) if k % 3 else S.PCTChooser(r, depth=3, est_steps=80)
+                res, final, outcomes, ids, trace, table = one_run(wants, chooser, line_budget=6, terminators=nt)
+                nruns += 1
+                ex = {"wants": wants, "terminators": nt, "schedule": trace, "result": res, "final_ids": ids, "outcomes": outcomes}
+                ck.case(("gst", tuple(wants), nt, tuple(trace)), nontrivial=len(trace) > 0)
+                if res != "ok":
+                    ck.broke("correspondence", "group-sched-run-" + res, ex)
+                    continue
+                if len(set(ids)) != len(ids):
+                    ck.fail("group-duplicate-live-id", ex)
+                autos = [o[1] for o, w in zip(outcomes, wants) if w is None and o and o[0] == 4]
+                if len(set(autos)) != len(autos):
+                    ck.fail("group-duplicate-auto-id", ex)
+                if any(o is None or o[0] == 5 for o, w in zip(outcomes, wants) if w is None):
+                    ck.fail("group-auto-id-collision", ex)
+        ck.count("group_sched_runs_with_terminate", 3 * nsched)
     ck.count("group_sched_runs", nruns)
     ck.cov["traces_validated_against_impl"] = ck.cov.get("traces_validated_against_impl", 0) + nruns
